@@ -3,3 +3,5 @@
 use mcx::Report;
 
 pub fn c07(_r: &Report) {}
+
+pub fn c13(_r: &Report) {}
